@@ -115,18 +115,24 @@ def canonicalize_license_expression(
 
     # Take a final pass to check for unknown licenses/exceptions.
     normalized_tokens = []
+    # ``WITH`` may only directly follow a license identifier.
+    after_license = False
     for token in tokens:
-        if token in {"or", "and", "with", "(", ")"}:
-            normalized_tokens.append(token.upper())
-            continue
-
         if normalized_tokens and normalized_tokens[-1] == "WITH":
             if token not in EXCEPTIONS:
                 message = f"Unknown license exception: {token!r}"
                 raise InvalidLicenseExpression(message)
 
             normalized_tokens.append(EXCEPTIONS[token]["id"])
+            after_license = False
+        elif token in {"or", "and", "with", "(", ")"}:
+            if token == "with" and not after_license:
+                message = f"Invalid license expression: {raw_license_expression!r}"
+                raise InvalidLicenseExpression(message)
+            normalized_tokens.append(token.upper())
+            after_license = False
         else:
+            after_license = True
             if token.endswith("+"):
                 final_token = token[:-1]
                 suffix = "+"
